@@ -5,20 +5,21 @@ import PyIpmi.Gen.Tables
 namespace PyIpmi.Model.Api
 open PyIpmi PyIpmi.Codec PyIpmi.Spec.Bmc PyIpmi.Gen.Tables
 
-def api_get_upgrade_status (s : BmcState) : Outcome (BmcState × Result) :=
-  (transact reqGetUpgradeStatus rspGetUpgradeStatus 0 (fresh reqGetUpgradeStatus) s).bind fun (s', v) =>
-    .ok (s', .hpmStatus (intAt v 2) (intAt v 3))
+def api_get_upgrade_status : Exchange :=
+  { req := reqGetUpgradeStatus, rsp := rspGetUpgradeStatus, vals := .ok (fresh reqGetUpgradeStatus),
+    post := fun v => .ok (.hpmStatus (intAt v 2) (intAt v 3)) }
 
-def api_get_target_upgrade_capabilities (s : BmcState) : Outcome (BmcState × Result) :=
-  (transact reqGetTargetUpgradeCapabilities rspGetTargetUpgradeCapabilities 0 (fresh reqGetTargetUpgradeCapabilities) s).bind
-    fun (s', v) => .ok (s', .hpmCaps (intAt v 2) (intAt v 5 % 256))
+def api_get_target_upgrade_capabilities : Exchange :=
+  { req := reqGetTargetUpgradeCapabilities, rsp := rspGetTargetUpgradeCapabilities,
+    vals := .ok (fresh reqGetTargetUpgradeCapabilities),
+    post := fun v => .ok (.hpmCaps (intAt v 2) (intAt v 5 % 256)) }
 
-def api_query_selftest_results (s : BmcState) : Outcome (BmcState × Result) :=
-  (transact reqQuerySelftestResults rspQuerySelftestResults 0 (fresh reqQuerySelftestResults) s).bind fun (s', v) =>
-    .ok (s', .natPair (intAt v 2) (intAt v 3 % 256))
+def api_query_selftest_results : Exchange :=
+  { req := reqQuerySelftestResults, rsp := rspQuerySelftestResults, vals := .ok (fresh reqQuerySelftestResults),
+    post := fun v => .ok (.natPair (intAt v 2) (intAt v 3 % 256)) }
 
-def api_query_rollback_status (s : BmcState) : Outcome (BmcState × Result) :=
-  (transact reqQueryRollbackStatus rspQueryRollbackStatus 0 (fresh reqQueryRollbackStatus) s).bind fun (s', v) =>
-    .ok (s', .optNatPair none (match optIntAt v 3 with | some 0 => none | e => e))
+def api_query_rollback_status : Exchange :=
+  { req := reqQueryRollbackStatus, rsp := rspQueryRollbackStatus, vals := .ok (fresh reqQueryRollbackStatus),
+    post := fun v => .ok (.optNatPair none (match optIntAt v 3 with | some 0 => none | e => e)) }
 
 end PyIpmi.Model.Api
